@@ -43,6 +43,7 @@ inductive Expr where
   | tupleAt (name : String) (i : Nat)       -- `arr_b.2` (TopKPlanner)
   | topkSlice (isTop hasLabels : Bool) (k : Nat)  -- TopKPlanner: `arraySlice(arraySort([λ,]groupArray((par_a.value, par_a.fingerprint[, par_a.labels]))), 1, k)`
   | arrayJoinFrom (src arr : Expr)          -- FROM `src array JOIN arr ` (Join of type "array": no ON, trailing blank)
+  | fixedLit (units scale : Nat)            -- a FloatVal/`%f` literal whose value is units / 10^scale (scale ≤ 6), printed with six decimals
 inductive Sel where
   | mk (withs : List (Alias × Sel)) (distinct : Bool) (cols : List Expr) (from_ : Option Expr)
        (joins : List (String × Alias × Expr)) (preWhere wher : Option Expr) (groupBy : List Expr)
@@ -56,6 +57,14 @@ def joinB (sep : Bytes) : List Bytes → Bytes
 
 def natDigits (n : Nat) : Bytes := (toString n).toUTF8.toList
 def intText (i : Int) : Bytes := (toString i).toUTF8.toList
+
+/-- `%f` text of units / 10^scale for scale ≤ 6: integer part, `.`, `scale` digits, zero padding to six decimals -/
+def fixedText (units scale : Nat) : String :=
+  let p := 10 ^ scale
+  let frac := toString (units % p)
+  toString (units / p) ++ "." ++
+    (if scale = 0 then "" else String.ofList (List.replicate (scale - frac.length) '0') ++ frac) ++
+    String.ofList (List.replicate (6 - scale) '0')
 
 def tsLabelsText : String :=
   "mapFromArrays(arrayMap(x -> x.1, JSONExtractKeysAndValues(time_series.labels, 'String') as rawlbls), " ++
@@ -93,6 +102,7 @@ def renderExpr : Expr → Bytes
       b "groupArray((par_a.value, par_a.fingerprint" ++ (if hasLabels then b ", par_a.labels" else []) ++ b "))), 1, " ++
       natDigits k ++ b ")"
   | .arrayJoinFrom src arr => renderExpr src ++ b " array JOIN " ++ renderExpr arr ++ b " "
+  | .fixedLit units scale => b (fixedText units scale)
 def renderExprs : List Expr → List Bytes
   | [] => []
   | o :: os => renderExpr o :: renderExprs os
